@@ -43,8 +43,9 @@ From G3 Require Import Model.Vec Model.BBox Model.Transform.
 Definition tr_mul_assign_pinned {K} {NK : Num K} (a b : Tr K) : Tr K :=
   mkTr (mul4x4 (elements a) (elements b)) (mul4x4 (inv_elements a) (inv_elements b)).
 
-(** transform.rs before fix: 34af114 / 5455df2: gamma(3) for the four roundings of a point row, and the
-    translation column added to the propagated input error.  Kept for the refutations of C16. *)
+(** transform.rs before fix: 34af114 / 5455df2 / the fix of the vector error: gamma(3) for the four roundings of a
+    point row, the translation column added to the propagated input error, and the translation column added to the
+    error of a transformed vector.  Kept for the refutations of C16. *)
 Section PinnedTransformErrors.
   Context {K : Type} {NK : Num K}.
   Notation V := (V3 K).
@@ -54,8 +55,12 @@ Section PinnedTransformErrors.
     let '(ret, err2) := pt_with_error_pinned m p in
     let err1 := vscale (mul4x4_abs m (vx e) (vy e) (vz e)) (n1 + ngamma 3) in
     (ret, vadd err1 err2).
+  (** before the fix of the vector functions: the translation column |m_i3| entered the error of a transformed
+      VECTOR, whose image does not involve the translation at all *)
+  Definition vec_with_error_pinned (m : M4 K) (v : V) : V * V :=
+    (mul4x4vec m v, vscale (mul4x4_abs m (vx v) (vy v) (vz v)) (ngamma 3)).
   Definition vec_propagate_error_pinned (m : M4 K) (v e : V) : V * V :=
-    let '(ret, err2) := vec_with_error m v in
+    let '(ret, err2) := vec_with_error_pinned m v in
     let err1 := vscale (mul4x4_abs m (vx e) (vy e) (vz e)) (n1 + ngamma 3) in
     (ret, vadd err1 err2).
 End PinnedTransformErrors.
